@@ -241,7 +241,7 @@ ATOMS = dict(
     nameaddr_deep=[SP, CR, B("a"), B("<b>"), B(";"), B("="), B("\""), B(",")],
     nameaddr_quoted=[B("\""), B("\\"), B("a"), B("<b>"), CR, B(";"), SP],
     hdrnum=[SP, CR, LF, B("l:"), B("Expires:"), B("CSeq:"), B("123456789"), B("0"), B("9"), B(" ACK"), B("x")],
-    quoted=[SP, CR, LF, B("a"), B("\""), B("\\"), [127], [1], [200]],
+    quoted=[SP, HT, CR, LF, B("a"), B("\""), B("\\"), [127], [1], [200]],
 )
 F_TOK = [0, 1, 2, 4, 8, 9, 12, 16, 32, 64, 72, 128, 136]
 
